@@ -1335,6 +1335,23 @@ asn1constraint_compute_constraint_range(
 		return range;
 	}
 
+	/*
+	 * A range whose lower endpoint is greater than its upper endpoint
+	 * contains no values. The range arithmetic below relies on
+	 * left <= right, so diagnose it here.
+	 */
+	if(!range->el_count
+	&& _edge_compare(&range->left, &range->right) > 0) {
+		FATAL("Empty range %s in %s constraint at line %d: "
+			"lower bound is greater than the upper bound",
+			_range_string(range),
+			asn1p_constraint_type2str(requested_ct_type),
+			ct->_lineno);
+		_range_free(range);
+		errno = EPERM;
+		return NULL;
+	}
+
 	if(minmax) {
 		asn1cnst_range_t *clone;
 
